@@ -13,8 +13,8 @@ class Skip(Exception):
 
 
 class NS:
-    def __init__(self, **kw):
-        self.__dict__.update(kw)
+    def __init__(*args, **kw):
+        args[0].__dict__.update(kw)
 
     def __repr__(self):
         return "NS(" + ", ".join(f"{k}={v!r}" for k, v in self.__dict__.items()) + ")"
@@ -44,6 +44,12 @@ class NativeSource:
 
     def const(self, name):
         return self.prims[name]
+
+    def symstr(self, name, alphabet="ACGT"):
+        return str(self.prims[name])
+
+    def enum_const(self, clsqual, member):
+        return self.cls(clsqual)[member]
 
     def assume(self, cond):
         if not cond:
@@ -115,6 +121,23 @@ class EngineSource:
     def const(self, name):
         return self.prims[name] if self.prims is not None else None
 
+    def symstr(self, name, alphabet="ACGT"):
+        """String over ``alphabet`` with symbolic length and content (code points in an array)."""
+        from .values import SymStr
+        if self.prims is not None:
+            return str(self.prims[name])
+        ln = z3.Int(name + "_len")
+        self.e.assume(ln >= 0)
+        arr = z3.Array(name, z3.IntSort(), z3.IntSort())
+        j = z3.Int(name + "!j")
+        codes = [ord(c) for c in alphabet]
+        self.e.assume(z3.ForAll([j], z3.Or(*[z3.Select(arr, j) == c for c in codes])))
+        self.decl[name] = ("symstr", (arr, ln, alphabet))
+        return SymStr(arr, ln)
+
+    def enum_const(self, clsqual, member):
+        return self.e.enum_member(self.e.repo.find(clsqual), member)
+
     def assume(self, cond):
         if isinstance(cond, bool):
             if not cond:
@@ -150,6 +173,15 @@ class EngineSource:
             elif kind == "enum":
                 idx = model.eval(v.idx, model_completion=True).as_long()
                 out[name] = v.members[idx][0]
+            elif kind == "symstr":
+                arr, ln, alphabet = v
+                n = model.eval(ln, model_completion=True).as_long()
+                n = max(0, min(n, 200))
+                chars = []
+                for i in range(n):
+                    c = model.eval(z3.Select(arr, i), model_completion=True).as_long()
+                    chars.append(chr(c) if chr(c) in alphabet else alphabet[0])
+                out[name] = "".join(chars)
             elif kind == "intlist":
                 arr, ln = v
                 n = model.eval(ln, model_completion=True).as_long()
